@@ -1176,7 +1176,7 @@ fn gen_cases(opts: &Opts) -> Vec<(&'static str, Case)> {
             }
         }
     }
-    // multipart bodies whose field just fits / just does not (overhead 60 bytes)
+    // multipart bodies whose field just fits / just does not (overhead 58 bytes)
     for (ov, def) in [(Some(100u64), 7u64), (None, 1024), (Some(1024), 0), (Some(70000), 1)] {
         let cap = eff(ov, def);
         for len in [cap as usize - 1, cap as usize, cap as usize + 1] {
